@@ -26,6 +26,8 @@ impl Once {
     /// After this call any subsequent call to send() is a noop.
     pub fn send(&self) {
         self.0.close();
+        #[cfg(era_consensus_verif)]
+        crate::verif::point();
     }
 
     /// Waits for the first call to send().
